@@ -136,6 +136,9 @@ class _StatePointDict(JSONAttrDict):
                 if old_statepoint is None:
                     old_statepoint = self._load_from_resource()
                 with self._suspend_sync:
+                    # Start from scratch: an in-place update would keep values that
+                    # compare equal but have a different type (1, 1.0, True).
+                    self._data.clear()
                     self._update(old_statepoint, _validate=False)
                 if error.errno in (errno.EEXIST, errno.ENOTEMPTY, errno.EACCES):
                     raise DestinationExistsError(new_id)
